@@ -1,6 +1,7 @@
 """C14 — the nested list-of-dicts form round-trips and mirrors the tree."""
 from __future__ import annotations
 
+import dataclasses
 import itertools
 import json
 
@@ -8,6 +9,68 @@ import build as B
 import common as H
 from common import Case, Tree
 from nutree.common import DictWrapper
+
+
+@dataclasses.dataclass
+class MutDC:
+    """non-frozen dataclass with eq: unhashable (__hash__ is None)"""
+    v: int
+
+    def __str__(self):
+        return f"MutDC{self.v}"
+
+
+def make_obj14(spec: str):
+    """build.make_obj + unhashable data objects: u:<v> a plain dict, m:<v> a non-frozen dataclass"""
+    k, _, v = spec.partition(":")
+    if k == "u":
+        return {"v": int(v)}
+    if k == "m":
+        return MutDC(int(v))
+    return B.make_obj(spec)
+
+
+def build14(desc):
+    U = H.Universe([make_obj14(s) for s in desc["univ"]])
+    t = B.new_tree(desc)
+    B.add_nodes(t._root, desc["nodes"], U, bool(desc.get("typed")))
+    return t, U
+
+
+def safe_hash(o) -> int:
+    """hash(o), or -1 (never a value of hash()) when o is unhashable"""
+    try:
+        return hash(o)
+    except TypeError:
+        return -1
+
+
+def info14(obj, U):
+    i = U.index(obj)
+    return dict(obj=i, eqc=U.eqc[i], hash=safe_hash(obj), isstr=isinstance(obj, str), name=f"{obj}")
+
+
+def coq_info14(node, U) -> str:
+    a = info14(node._data, U)
+    kind = getattr(node, "kind", None)
+    return (f"(I {H.z(a['obj'])} {H.z(a['eqc'])} {H.z(a['hash'])} {H.coq_bool(a['isstr'])} "
+            f"{H.coq_text(a['name'])} {H.coq_did(node._data_id)} {H.coq_opt(kind, H.coq_text)} {H.coq_meta(node._meta)})")
+
+
+def coq_rt14(node, U) -> str:
+    return f"(Tz {H.nid(node)} {coq_info14(node, U)} {H.coq_list(coq_rt14(c, U) for c in (node._children or []))})"
+
+
+def coq_forest14(root, U) -> str:
+    return H.coq_list(coq_rt14(c, U) for c in (root._children or []))
+
+
+def is_custom(n) -> bool:
+    """the node's data_id is not the default hash(data) (unhashable data has no default)"""
+    try:
+        return n._data_id != hash(n._data)
+    except TypeError:
+        return True
 
 
 def call(fn):
@@ -83,7 +146,7 @@ def enc(obj, U):
         return {"t": "e", "v": obj.v}
     if isinstance(obj, B.DC):
         return {"t": "d", "v": obj.v}
-    if isinstance(obj, (H.PlainObj, DictWrapper)):
+    if isinstance(obj, (H.PlainObj, DictWrapper, dict, MutDC)):
         return {"t": "k", "k": U.index(obj)}
     raise TypeError(obj)
 
@@ -177,7 +240,7 @@ def item_dicts(obj):
 
 
 def coq_info_data(obj, U) -> str:
-    a = U.info(obj)
+    a = info14(obj, U)
     return (f"(I (-1) {H.z(a['eqc'])} {H.z(a['hash'])} {H.coq_bool(a['isstr'])} "
             f"{H.coq_text(a['name'])} (DInt 0) None [])")
 
@@ -195,7 +258,6 @@ def coq_dtable(obj, kind, U) -> str:
             continue
         try:
             o = v if kind == "none" else dec(payload(kind, v), U)
-            hash(o)
             rows[k] = f"({jv_coq(v)}, dok {coq_info_data(o, U)})"
         except Exception as e:  # noqa: BLE001
             rows[k] = f"({jv_coq(v)}, derr {H.err_class(e)})"
@@ -207,7 +269,7 @@ def obs_rebuilt(res, U):
         return [1, res[1]]
 
     def go(n):
-        a = U.info(n._data)
+        a = info14(n._data, U)
         return [H.nid(n), [a["eqc"], a["hash"], a["isstr"], a["name"], H.sx_did(n._data_id)],
                 [go(c) for c in (n._children or [])]]
     return [0, [go(c) for c in (res._root._children or [])]]
@@ -242,7 +304,7 @@ class Prop:
     shard = 250
     rule = ("plain trees: every ordered forest with <= 3 nodes x every labeling over 2 strings x data_id in {default, 0, '', 'k', "
             "hash(data)} that the tree accepts (quick: 3-node forests with {default, 0} only); every forest with <= N nodes (N=5 "
-            "quick, 6 thorough) x 7 labeling patterns (distinct strings; strings JSON must escape; clones in different parents; explicit/falsy/default-valued ids; "
+            "quick, 6 thorough) x 8 labeling patterns (distinct strings; strings JSON must escape; unhashable dicts/dataclasses under explicit ids; clones in different parents; explicit/falsy/default-valued ids; "
             "value-equal objects, tuples, ints, dataclasses; identity-hashed objects; '7' next to 7) x the 5 serialisation mappers (none / "
             "set data in place / wrap / new dict keeping or dropping data_id) with the inverse deserialisation mapper (at N nodes: 1 (quick) or 2 "
             "of the 5 mappers per tree); trees under a calc_data_id hook; typed trees; emptied trees (clear, remove of the last top "
@@ -250,11 +312,12 @@ class Prop:
             "into every node of every forest <= 3 (thorough 4) nodes x 3 calc_data_id hooks x 6 item lists.  Every dump goes through "
             "json.dumps/json.loads before from_dict.  A case is one tree (or one dict list); distinct = distinct desc; non-trivial = >= 3 nodes")
     exhaustive_note = ("all shapes <= 3 nodes x all labelings (2 strings x 5 data_id choices; quick: 2 choices at 3 nodes); "
-                       "all shapes <= N nodes x 7 patterns x mappers (N=5 quick, 6 thorough)")
+                       "all shapes <= N nodes x 8 patterns x mappers (N=5 quick, 6 thorough)")
     assumptions = [
         "serialisation mappers are functions of the node's data object/ids and the dict passed in; deserialisation mappers read only item['data'] and do not mutate the item",
         "the mapper pair is inverse: deser(ser(x)) == x (hence equal hash) – hypothesis of the round-trip theorem, not an axiom",
         "str(data) == f'{data}' (node.name) for the data objects used",
+        "hash() never returns -1 (CPython): the model encodes 'hash(data) raises TypeError' as i_hash = -1",
         "json.dumps/json.loads transport of str/int/list/dict values is trusted (exercised on every case: from_dict runs on the reloaded structure)",
         "identity of nodes is the allocation index recorded by a harness-side wrapper of Node.__init__",
     ]
@@ -292,7 +355,7 @@ class Prop:
                 return False
             seen.add(k)
             try:
-                B.build(d)
+                build14(d)
                 return True
             except Exception:  # labeling refused by the tree (duplicate sibling)
                 return False
@@ -338,6 +401,14 @@ class Prop:
                                  nodes=B.shape_to_nodes(shape, lambda i, dp, s: (i, None, None)))
                         if ok(d):
                             yield d
+        # unhashable data under a calc_data_id hook (the other documented way to store dicts)
+        for n in (1, 2, 3, 4):
+            for shape in H.forests(n):
+                for sm in ("none", "set", "newdrop"):
+                    d = dict(univ=["u:1", "m:2", "s:a", "u:3"], calc="name", sm=sm,
+                             nodes=B.shape_to_nodes(shape, lambda i, dp, s: (i, None, None)))
+                    if ok(d):
+                        yield d
         # typed trees go through the same Node.to_dict (the kind is not carried; from_dict builds a plain Tree)
         for n in (2, 3):
             for shape in H.forests(n):
@@ -356,7 +427,7 @@ class Prop:
         for _ in range(nrand):
             n = rng.randint(5, 18 if tier == "quick" else 30)
             shape = H.random_shape(rng, n, deep=rng.choice([0.2, 0.5, 0.85]))
-            univ = ["s:a", "s:b", "s:c", "s:", "e:1", "e:1", "e:2", "t:1,2", "i:7", "i:-1", "d:3", "p:1", "p:1", "w:4", "s:7"]
+            univ = ["s:a", "s:b", "s:c", "s:", "e:1", "e:1", "e:2", "t:1,2", "i:7", "i:-1", "d:3", "p:1", "p:1", "w:4", "s:7", "u:5", "m:6"]
             sm = rng.choice(SM_KINDS)
             pool = range(len(univ)) if sm != "none" or rng.random() < 0.3 else [0, 1, 2, 3, 14]
             pool = list(pool)
@@ -408,6 +479,8 @@ class Prop:
             # strings JSON has to escape (quote, backslash, control, non-ASCII, non-BMP), also as explicit ids
             (["s:a\"b", "s:a\\b", "s:\n\t", "s:\u00e9\u00df", "s:\U0001F600x", "s: "],
              lambda i, d, s: ((d + 2 * s + i) % 6, None, None if (i + s) % 3 else ["\"", "\\", "\u00e9", "\U0001F600", "\n"][i % 5] + str(i))),
+            # unhashable data objects (dict, non-frozen dataclass) under explicit ids, clones through one id (D30b)
+            (["u:1", "u:1", "m:2", "s:a"], lambda i, d, s: ((d + s) % 4, None, f"h{(d + s) % 4}" + ("" if s < 4 else str(i)))),
             # strings and non-strings mixed, same printed form ("7" and 7)
             (["s:7", "i:7", "s:a", "e:7"], lambda i, d, s: ((d + 2 * s) % 4, None, None if s < 2 else f"x{i}")),
         ]
@@ -426,19 +499,20 @@ class Prop:
             return self.run_load(desc)
         if "into" in desc:
             return self.run_into(desc)
-        tree, U = B.build(desc)
+        tree, U = build14(desc)
         apply_prep(tree, desc.get("prep"))
         kind = desc.get("sm", "none")
         nodes = B.all_nodes(tree._root)
         ser, deser = make_ser(kind, U), make_deser(kind, U)
-        finput = H.coq_forest(tree._root, U)
+        finput = coq_forest14(tree._root, U)
         smd = coq_smd(kind, U, nodes)
 
         dump = call(lambda: tree.to_dict_list(mapper=ser))
         subs = nodes if len(nodes) <= 2 else [nodes[len(nodes) // 2], nodes[-1]]
         sub_dumps = [call(lambda n=n: n.to_dict(mapper=ser)) for n in subs]
         stats = dict(nodes=len(nodes), depth=B.nodes_depth(desc["nodes"]), mapper=kind, prep=str(desc.get("prep")),
-                     custom_ids=sum(1 for n in nodes if n._data_id != hash(n._data)),
+                     custom_ids=sum(1 for n in nodes if is_custom(n)),
+                     unhashable=sum(1 for n in nodes if safe_hash(n._data) == -1),
                      clones=sum(1 for n in nodes if len(tree._nodes_by_data_id.get(n._data_id, [])) > 1))
         key = H.digest(desc)
         nontrivial = len(nodes) >= 3
@@ -482,12 +556,12 @@ class Prop:
 
     def run_into(self, desc) -> Case:
         """Node.from_dict(items) on the node with pre-order index desc['into'] of an existing tree"""
-        tree, U = B.build(desc)
+        tree, U = build14(desc)
         nodes = B.all_nodes(tree._root)
         target = nodes[desc["into"]]
         obj = desc["items"]
         before = [(n, n._parent, list(n._children or []), n._data, n._data_id) for n in nodes]
-        finput = H.coq_forest(tree._root, U)
+        finput = coq_forest14(tree._root, U)
         dt = coq_dtable(obj, "none", U)
         nxt = H.alloc_count()
         r = call(lambda: target.from_dict(json.loads(json.dumps(obj))))
@@ -591,7 +665,7 @@ class Prop:
                 w = f"{where}/{k}"
                 if type(d) is not dict:
                     return f"mirror: {w}: not a dict"
-                custom = n._data_id != hash(n._data)
+                custom = is_custom(n)
                 keys = {"data"}
                 if kind in ("new", "newdrop"):
                     keys.add("x")
@@ -636,31 +710,38 @@ class Prop:
         strings_only = all(isinstance(n._data, str) for n in B.all_nodes(root))
         hyp = (kind == "none" and strings_only) or kind in ("set", "wrap", "new")
 
-        def eff_id(d):   # the id from_dict will give the item
-            if d.get("data_id") is not None:
-                return d["data_id"]
-            o = d["data"] if kind == "none" else dec(payload(kind, d["data"]), U)
-            return hash(o)
-
-        def collision(dl):
+        def first_refusal(dl):
+            """what from_dict has to refuse first, items taken in pre-order: 7 = an item without data_id whose data is
+            unhashable (no default id), 1 = an item whose effective id is already taken by an earlier sibling"""
             ids = []
             for d in dl:
-                e = eff_id(d)
+                if d.get("data_id") is not None:
+                    e = d["data_id"]
+                else:
+                    o = d["data"] if kind == "none" else dec(payload(kind, d["data"]), U)
+                    e = safe_hash(o)
+                    if e == -1:
+                        return 7
                 if any(e == x and type(e) is type(x) for x in ids):
-                    return True
+                    return 1
                 ids.append(e)
-                if d.get("children") and collision(d["children"]):
-                    return True
-            return False
+                if d.get("children"):
+                    r = first_refusal(d["children"])
+                    if r:
+                        return r
+            return None
 
+        want_err = first_refusal(wire)
+        if hyp and want_err:
+            return f"oracle: a valid tree's dump must be loadable, reference says {H.ERR_NAMES.get(want_err)}"
         if is_err(rebuilt):
             if hyp:
                 return f"round trip: from_dict raised {H.ERR_NAMES.get(rebuilt[1])} on the dump of a valid tree"
-            if rebuilt[1] == 1 and collision(wire):
-                return None   # outside the property's domain (str() of non-strings merged two siblings)
-            return f"round trip: from_dict raised {H.ERR_NAMES.get(rebuilt[1])} without a sibling collision"
-        if not hyp and collision(wire):
-            return "round trip: from_dict accepted two siblings with one data_id"
+            if rebuilt[1] == want_err:
+                return None   # outside the property's domain (str() merged two siblings / the mapper dropped a needed id)
+            return f"round trip: from_dict raised {H.ERR_NAMES.get(rebuilt[1])}, expected {H.ERR_NAMES.get(want_err, 'success')}"
+        if want_err:
+            return f"round trip: from_dict accepted an input it has to refuse with {H.ERR_NAMES.get(want_err)}"
 
         O = []
         R = []
@@ -680,7 +761,7 @@ class Prop:
                 else:
                     if type(r._data) is not type(o._data) or r._data != o._data:
                         return f"round trip data: {w}: {r._data!r} for {o._data!r}"
-                custom = o._data_id != hash(o._data)
+                custom = is_custom(o)
                 if hyp or (custom and kind != "newdrop"):
                     want = o._data_id
                 else:
@@ -765,6 +846,9 @@ class Prop:
 
 
 CORPUS = [
+    # D30b: unhashable data stored the documented way (explicit data_id): to_dict evaluates hash(data)
+    dict(univ=["u:1", "s:a"], nodes=[[0, None, "{123-456}", [[1, None, None, []]]]], sm="set"),
+    dict(univ=["m:2"], nodes=[[0, None, 7, []]], sm="none"),
     # D30: to_dict_list on a tree emptied by clear() / by removing its last top-level node
     dict(univ=["s:a", "s:b"], nodes=[[0, None, None, [[1, None, None, []]]]], sm="none", prep="clear"),
     dict(univ=["s:a"], nodes=[[0, None, None, []]], sm="none", prep="remove_tops"),
